@@ -137,6 +137,14 @@ def run(ctx):
         if ctx.rng.random() > keep:
             continue
         cases += cases_for_doc("d%d" % i, a, ctx.rng)
+    if not thorough:
+        # three Twp/Rge groups with one section group each (the thorough tier enumerates three groups anyway): segmenting
+        # must cut the third block where the second ended
+        res3 = ctx.tlc("PlssDoc", dict(base, MaxGroups=3, MaxSecs=1, Fault="none", EmitCases=True), invariants=["EmitCase"],
+                       workers=1, count=False)
+        for i, a in enumerate(res3.cases):
+            if len(a["groups"]) == 3 and ctx.rng.random() < 0.6:
+                cases += cases_for_doc("t%d" % i, a, ctx.rng)
     k = 0
     for rep in range(60 if thorough else 12):
         for kind in ("single", "and", "thru"):
@@ -147,7 +155,7 @@ def run(ctx):
         raise core.MachineryFailure("no C20 cases")
     check(ctx, cases)
     ctx.rule = ("paired parses of documents whose shapes are enumerated by spec/PlssDoc.tla (%d%% seeded sample of all shapes "
-                "within %d groups x %d section groups): default vs segment (Twp/Rge-Sec-desc documents also with a block that "
+                "within %d groups x %d section groups; quick tier: + 60%% of the three-group shapes with one section group each): default vs segment (Twp/Rge-Sec-desc documents also with a block that "
                 "refers back to its own section and Twp/Rge); all-colon text vs both colon modes; colon-less "
                 "text vs cautious (same tracts + warning) and required (one whole-text tract); plus sec_within texts "
                 "(3 list kinds x 4 Twp/Rge placements x random leading/trailing text); non-trivial = distinct "
